@@ -666,6 +666,9 @@ class DatasetBuilder:
             raise DataError(f"{n_bad} unknown entity IDs")
 
         val_array: pa.Array = pa.array(values)  # type: ignore
+        if pa.types.is_dictionary(val_array.type):
+            # categorical input: replace_with_mask has no dictionary kernel
+            val_array = val_array.dictionary_decode()
         # replace_with_mask consumes the values in table-row order
         order = np.argsort(nums.to_numpy())
         if np.any(np.diff(order) < 0):
